@@ -212,7 +212,7 @@ def make_model(desc):
 
 
 def histories(tier):
-    st = bfs(EncModel(quick=(tier != "thorough")), 3 if tier == "thorough" else 2, budget_s=1500 if tier == "thorough" else 150)
+    st = bfs(EncModel(quick=(tier != "thorough")), 3 if tier == "thorough" else 2, budget_s=1500 if tier == "thorough" else 1500)
     return st
 
 
@@ -527,7 +527,7 @@ def h_threads(ctx):
 PARTS = [
     Part("encryption-histories", custom=histories, engine="E2"),
     Part("several-recipients-one-message", h_recipients, split_depth=3),
-    Part("thread-schedules", h_threads, bound={"quick": 1, "thorough": 2}, split_depth=2, budget={"quick": 200, "thorough": 3000}, engine="E3"),
+    Part("thread-schedules", h_threads, bound={"quick": 1, "thorough": 2}, split_depth=2, budget={"quick": 2000, "thorough": 3000}, engine="E3"),
     Part("key-generation", h_generate, split_depth=2),
     _pp,
 ]
